@@ -935,6 +935,8 @@ class Interp:
                 return PyVec([copy.deepcopy(fill) for _ in range(vals[0])])
         if base.startswith("std::pair<") and len(args) == 2:
             return (self.rv(self.eval(args[0], fr)), self.rv(self.eval(args[1], fr)))
+        if (base.startswith("std::shared_ptr<") or base.startswith("std::unique_ptr<")) and len(args) == 1:
+            return self.rv(self.eval(args[0], fr))      # smart pointers are modelled by their pointee
         if (base.startswith("std::map<") or base.startswith("std::unordered_map<")) and args:
             first = self.rv(self.eval(args[0], fr))
             if isinstance(first, (list, PyVec)):
@@ -1056,6 +1058,13 @@ class Interp:
             if isinstance(a, (int, float)):
                 return math.sqrt(a)
             return self.world.sym_unop("sqrt", a)
+        if bn == "std::swap" and len(args_n) == 2:
+            ra, rb = A(0), A(1)
+            if isinstance(ra, Ref) and isinstance(rb, Ref):
+                va, vb = copy.deepcopy(ra.get()), copy.deepcopy(rb.get())
+                ra.set(vb)
+                rb.set(va)
+                return None
         if bn == "std::reverse" and len(args_n) == 2:
             a, b = V(0), V(1)
             if isinstance(a, Iter) and isinstance(b, Iter) and a.seq is b.seq and a.step == 1:
